@@ -231,21 +231,14 @@ def check(col: Collector, tier: str):
     ex = repo.function("_extract_result_TTree")
     col.add("C03.R6", ex.short, "copies-rep.filename", "rep.filename" in src(ex.node), "", ex.loc)
 
-    # ------------------------------------------------------------ R7 tree_type honoured
-    col.floor("C03.R7", 3)
-    gt = repo.function("get_ttree_type")
-    rets = [r for r in ast.walk(gt.node) if isinstance(r, ast.Return)]
-    seq = [r for r in rets if "sequence_value()" in src(r)]
-    sca = [r for r in rets if "sequence_value()" not in src(r)]
-    col.add("C03.R7", gt.short, "sequence-column-is-collection-of-tree_type", len(seq) == 1 and
-            src(seq[0].value) == "ctyp.collection(rep.sequence_value().cpp_type().tree_type)",
-            f"a sequence column must be typed collection(<element>.tree_type) (found {[src(r.value) for r in seq]}); rep.cpp_type() would ignore a "
-            "declared tree_type and drop the conversion on push_back", gt.loc)
-    col.add("C03.R7", gt.short, "scalar-column-is-tree_type", len(sca) == 1 and src(sca[0].value) == "rep.cpp_type().tree_type", f"{[src(r.value) for r in sca]}", gt.loc)
-    tt = repo.find_class("terminal").methods.get("tree_type")
-    s = src(tt.node)
-    col.add("C03.R7", "terminal.tree_type", "declared-tree-type-wins-else-self", "self if self._tree_type is None else terminal(self._tree_type" in s.replace("\n", " ").replace("  ", ""), "", tt.loc)
+    check_tree_type(col, "C03.R7", repo)
 
+    # ------------------------------------------------------------ R9 shared: Fill at the mainline scope, declared types registered as given
+    from sa.props._tr import import_obligations
+    import_obligations(col, "C03.R9", "c01", lambda o: o.detail == "fill-at-the-mainline-scope",
+                       "Fill inside a column's own if/loop writes the row before the other columns are set")
+    import_obligations(col, "C03.R9", "c10", lambda o: o.rule == "C10.R3" and "value-return" in o.detail,
+                       "const or pointer qualifiers that leak into the registered type become the column's type")
     # ------------------------------------------------------------ R8 conditional is double
     col.floor("C03.R8", 2)
     vi = m.get("visit_IfExp")
@@ -256,3 +249,21 @@ def check(col: Collector, tier: str):
         [n for n in ast.walk(vi.node) if isinstance(n, ast.Assign) and any("_cpp_type" in src(t) for t in n.targets)]
     col.add("C03.R8", vi.short, "never-retyped-from-its-arms", not ut,
             "re-typing the result from its arms makes `1 if c else 0` (and Max/Min of integers) an int column and truncates a float accumulated through it", vi.loc)
+
+
+def check_tree_type(col: Collector, rule: str, repo: Repo):
+    # ------------------------------------------------------------ R7 tree_type honoured
+    col.floor(rule, 3)
+    gt = repo.function("get_ttree_type")
+    rets = [r for r in ast.walk(gt.node) if isinstance(r, ast.Return)]
+    seq = [r for r in rets if "sequence_value()" in src(r)]
+    sca = [r for r in rets if "sequence_value()" not in src(r)]
+    col.add(rule, gt.short, "sequence-column-is-collection-of-tree_type", len(seq) == 1 and
+            src(seq[0].value) == "ctyp.collection(rep.sequence_value().cpp_type().tree_type)",
+            f"a sequence column must be typed collection(<element>.tree_type) (found {[src(r.value) for r in seq]}); rep.cpp_type() would ignore a "
+            "declared tree_type and drop the conversion on push_back", gt.loc)
+    col.add(rule, gt.short, "scalar-column-is-tree_type", len(sca) == 1 and src(sca[0].value) == "rep.cpp_type().tree_type", f"{[src(r.value) for r in sca]}", gt.loc)
+    tt = repo.find_class("terminal").methods.get("tree_type")
+    s = src(tt.node)
+    col.add(rule, "terminal.tree_type", "declared-tree-type-wins-else-self", "self if self._tree_type is None else terminal(self._tree_type" in s.replace("\n", " ").replace("  ", ""), "", tt.loc)
+
